@@ -26,6 +26,7 @@ type GRPCTarget struct {
 	mu    sync.Mutex
 	calls []string // "Hello:<name>" in arrival order
 	stop  chan struct{}
+	cb    func(name string)
 }
 
 func NewGRPC() (*GRPCTarget, error) {
@@ -39,6 +40,10 @@ func NewGRPC() (*GRPCTarget, error) {
 	go func() { _ = t.srv.Serve(l) }()
 	return t, nil
 }
+
+// OnCall installs a callback invoked for every Hello call after it has been counted.
+func (t *GRPCTarget) OnCall(f func(name string)) { t.mu.Lock(); t.cb = f; t.mu.Unlock() }
+func (t *GRPCTarget) onCall() func(string)       { t.mu.Lock(); defer t.mu.Unlock(); return t.cb }
 
 func (t *GRPCTarget) Addr() string { return t.lis.Addr().String() }
 func (t *GRPCTarget) Close()       { close(t.stop); t.srv.Stop() }
@@ -56,6 +61,16 @@ func (t *GRPCTarget) Hello(ctx context.Context, req *server.HelloRequest) (*serv
 	t.mu.Lock()
 	t.calls = append(t.calls, "Hello:"+req.GetName())
 	t.mu.Unlock()
+	if cb := t.onCall(); cb != nil {
+		cb(req.GetName())
+	}
+	if rest, ok := strings.CutPrefix(req.GetName(), "slow/"); ok { // a normal answer, but not at once
+		select {
+		case <-time.After(150 * time.Millisecond):
+		case <-t.stop:
+		}
+		return &server.HelloResponse{Hello: "Hello " + rest + "!"}, nil
+	}
 	if req.GetName() == "stall" {
 		// Answer nothing while the caller may still be waiting.  ctx is NOT a signal for that: gRPC propagates the
 		// caller's deadline, so ctx fires here at the very moment the caller's own timer does, and an answer sent
